@@ -133,6 +133,8 @@ def version_table(table):
 
     :param table: SQLAlchemy Table object
     """
+    if 'version_table' in table.info:
+        return table.info['version_table']
     if table.schema:
         return table.metadata.tables[
             table.schema + '.' + table.name + '_version'
